@@ -1,0 +1,22 @@
+//go:build verif
+
+package implementation
+
+import (
+	"github.com/zenon-network/go-zenon/chain/nom"
+	"github.com/zenon-network/go-zenon/vm/vm_context"
+)
+
+// Exports of the two liquidity update routines WITH the descendant blocks they return (the Mint / Burn calls that
+// carry the amounts issued for every epoch), for the verification harness (build tag verif only).
+
+// VerifUpdateLiquidityRewardsBlocks is updateLiquidityRewards (Update of the liquidity contract before the
+// bridge-and-liquidity spork): two Mint blocks per epoch the cursor passes.
+func VerifUpdateLiquidityRewardsBlocks(context vm_context.AccountVmContext) ([]*nom.AccountBlock, error) {
+	return updateLiquidityRewards(context)
+}
+
+// VerifUpdateLiquidityStakeRewardsBlocks is updateLiquidityStakeRewards (after the spork): at most one epoch per call.
+func VerifUpdateLiquidityStakeRewardsBlocks(context vm_context.AccountVmContext) ([]*nom.AccountBlock, error) {
+	return updateLiquidityStakeRewards(context)
+}
